@@ -524,14 +524,17 @@ impl Loop3D {
             // order not to count vertices twice.
             if let Some((t_a, t_b)) = segment_ab.get_intersection_pt(&ray) {
                 // If the ray intersects
-                if (0. ..=1.).contains(&t_b) && (0. ..=1.).contains(&t_a) {
-                    if t_a < Float::EPSILON {
+                // `t_a` is only known up to rounding: a crossing this close to an end of the
+                // segment is a crossing through that vertex
+                const SNAP: Float = 1e-8;
+                if (0. ..=1.).contains(&t_b) && (-SNAP..=1. + SNAP).contains(&t_a) {
+                    if t_a < SNAP {
                         // if the intersection is at the start of the segment
                         let side_normal = d.cross(segment_ab.as_vector3d());
                         if side_normal.is_same_direction(self.normal) {
                             n_cross += 1
                         }
-                    } else if t_a < 1. {
+                    } else if t_a < 1. - SNAP {
                         // intersection is within the segment (not including the end)
                         n_cross += 1;
                     } else {
